@@ -39,4 +39,7 @@ theorem C12_idempotent (r : PRepo) (hok : r.OK) (refs : List Nat) (r' : PRepo)
     (h : prune Facts.pruneSearchChecked r refs = .ok r') : prune Facts.pruneSearchChecked r' refs = .ok r' := by
   rw [C12_fact_searchChecked] at h ⊢; exact prune_idempotent r hok refs r' h
 
+/-- the mark phase starts from every ref (the `roots` of the theorems below are all refs) -/
+theorem C12_fact_rootsAllRefs : Facts.pruneRootsAreAllRefs = true := by decide
+
 end Wrgl
